@@ -718,6 +718,13 @@ func InvalidElectionIDAndParams(c *fluent.GRIBIClient, t testing.TB, _ ...TestOp
 
 	c.StartSending(context.Background(), t)
 
+	// Wait for the initial session parameters and election ID to be answered. Their
+	// responses would otherwise be taken by the client as the answers to the message
+	// injected below, such that it converges before the server's error arrives.
+	if err := awaitTimeout(context.Background(), c, t, time.Minute); err != nil {
+		t.Fatalf("got unexpected error from server - session negotiation, got: %v, want: nil", err)
+	}
+
 	// Inject a specific invalid entry that specifies election ID in two places along
 	// with the session parameters.
 	c.Modify().InjectRequest(t, &spb.ModifyRequest{
@@ -799,6 +806,13 @@ func ModifyConnectionRepeatedSessionParameters(c *fluent.GRIBIClient, t testing.
 	defer c.Stop(t)
 
 	c.StartSending(context.Background(), t)
+
+	// Wait for the initial session parameters and election ID to be answered. Their
+	// responses would otherwise be taken by the client as the answers to the message
+	// injected below, such that it converges before the server's error arrives.
+	if err := awaitTimeout(context.Background(), c, t, time.Minute); err != nil {
+		t.Fatalf("got unexpected error from server - session negotiation, got: %v, want: nil", err)
+	}
 
 	// Inject a second session parameters message.
 	c.Modify().InjectRequest(t, &spb.ModifyRequest{
